@@ -124,6 +124,7 @@ package openid
 //@   ensures [C13.tokens-imply-fragment-default] err == nil && old(inv) ==> inv
 //@   ensures [C13.implicit-needs-grant] err == nil && old(applies) && old(ar.GetResponseTypes().Has("token")) ==> ar.GetClient().GetGrantTypes().Has("implicit")
 //@   ensures [C13.code-needs-grant] err == nil && old(applies) ==> ar.GetClient().GetGrantTypes().Has("authorization_code")
+//@   assert @call(CreateAuthorizeCodeSession)#1 [C02.stored-code-keeps-redirect-uri] len(c.AuthorizeExplicitGrantHandler.Config.GetSanitationWhiteList(ctx)) == 0 ==> formget($arg3.GetRequestForm(), "redirect_uri") == old(formget(ar.GetRequestForm(), "redirect_uri"))
 //@   ensures [C13.id-token-needs-implicit-grant] err == nil && ("id_token" in resp.GetParameters()) && !old("id_token" in resp.GetParameters()) ==> ar.GetClient().GetGrantTypes().Has("implicit")
 //@   ensures [C13.oidc-needs-redirect-uri-and-nonce] err == nil && old(applies) ==> old(len(formget(ar.GetRequestForm(), "redirect_uri")) > 0 && (len(formget(ar.GetRequestForm(), "nonce")) == 0 || len(formget(ar.GetRequestForm(), "nonce")) >= c.Config.GetMinParameterEntropy(ctx)) && (ar.GetResponseTypes().Has("id_token") ==> len(formget(ar.GetRequestForm(), "nonce")) > 0))
 //@   ensures [C13.token-only-when-requested] !old(applies) ==> err == nil && (forall k string :: (k in resp.GetParameters()) == old(k in resp.GetParameters())) && ar.GetDefaultResponseMode() == old(ar.GetDefaultResponseMode())
